@@ -160,6 +160,12 @@ KERNELS = {
     "rbf+linear": lambda bs: K.RBFKernel(batch_shape=bs) + K.LinearKernel(batch_shape=bs),
     "rbf*matern": lambda bs: K.RBFKernel(batch_shape=bs) * K.MaternKernel(nu=1.5, batch_shape=bs),
     "scale(rbf+rq)": lambda bs: K.ScaleKernel(K.RBFKernel(batch_shape=bs) + K.RQKernel(batch_shape=bs), batch_shape=bs),
+    "cosine": lambda bs: K.CosineKernel(batch_shape=bs),
+    "piecewise_q1": lambda bs: K.PiecewisePolynomialKernel(q=1, batch_shape=bs),
+    "rq_ard": lambda bs: K.RQKernel(ard_num_dims=D, batch_shape=bs),
+    "constant": lambda bs: K.ConstantKernel(batch_shape=bs),
+    "arc": lambda bs: K.ArcKernel(K.MaternKernel(nu=2.5, batch_shape=bs), batch_shape=bs),
+    "scale(rbf*linear)": lambda bs: K.ScaleKernel(K.RBFKernel(batch_shape=bs) * K.LinearKernel(batch_shape=bs), batch_shape=bs),
 }
 
 
@@ -224,7 +230,12 @@ class KernelFam(Family):
                                lazy_diag_n3=lambda: mod(x3).diagonal(dim1=-1, dim2=-2))
 
     def input_class(self, name, sp, sd, m):
-        return "+diag-batchdim-eq-n" if name in ("diag_n3", "lazy_diag_n3") and m["diag_collision"] else ""
+        # classes of the recorded findings (decided by the Coq model): the kernel's batch shape does not expand to the
+        # inputs' batch shape (C08-constant-kernel-param-batch); diag heuristic collision (C08-kernel-diag-batch-rank-heuristic)
+        cls = "" if m["expands"] else "+param-batch-exceeds-data-batch"
+        if name in ("diag_n3", "lazy_diag_n3") and m["diag_collision"]:
+            cls += "+diag-batchdim-eq-n"
+        return cls
 
 
 class MeanFam(Family):
